@@ -296,7 +296,7 @@ func genC18Case() *rapid.Generator[C18Case] {
 				c.New.Slots[i].MaxBody = 4 - c.New.Slots[i].MaxBody
 			}
 		}
-		c.Mode = rapid.SampledFrom([]string{"pause", "pause", "body-read", "body-read", "failed"}).Draw(t, "mode")
+		c.Mode = rapid.SampledFrom([]string{"pause", "pause", "body-read", "body-read", "failed", "pull-in-flight"}).Draw(t, "mode")
 		c.Pause = rapid.SampledFrom([]string{"state.write-unlocked", "state.write-unlocked", "reload.after-loadauth", "reload.after-updateall"}).Draw(t, "pause")
 		c.Warm = rapid.Bool().Draw(t, "warm")
 		c.Fail = rapid.SampledFrom([]string{"removed", "directory", "garbage", "uncompilable", "secret-missing", "secret-missing-adaptive", "secret-missing-ratelimit", "restart-listen", "restart-max-body", "restart-prefix", "truncated"}).Draw(t, "fail")
@@ -537,6 +537,67 @@ func runC18(c C18Case, tolerate bool) *fOutcome {
 				}
 				if strings.HasPrefix(names[i], "/") && strings.Contains(names[i], "-big") && strings.HasPrefix(vAfter[i], "202") && vNew2[i] == "413" {
 					f.Prop = "C18,C12"
+				}
+				out.Failure = f
+				return out
+			}
+		}
+		return out
+
+	case "pull-in-flight":
+		// a pull request is in flight across the reload: it has been authorized, the reload is carried
+		// out, then its endpoint is resolved (verif hook between the two reads of the runtime state)
+		if err := os.WriteFile(w.cfgPath, []byte(newText), 0o600); err != nil {
+			out.Failure = ffail("HARNESS", "write", 0, "%v", err)
+			return out
+		}
+		var pulls []probe
+		for _, p := range buildBattery(w, "t1") {
+			if p.api == "pull" {
+				pulls = append(pulls, p)
+			}
+		}
+		refAns := func(rw *frontWorld) []string {
+			var a []string
+			for _, p := range pulls {
+				rw.clk.add(time.Millisecond)
+				a = append(a, runProbe(rw, p))
+			}
+			return a
+		}
+		vOld, vNew := refAns(refOld), refAns(refNew)
+		if answersDiff(vOld, vNew) > 0 {
+			out.NonTriv = true
+			out.Labels["configs-differ-in-battery"] = true
+		}
+		for i, p := range pulls {
+			if vOld[i] == vNew[i] && !strings.HasPrefix(vOld[i], "200") {
+				continue // refused alike before the state is read a second time
+			}
+			wi := mkWorld(oldText)
+			if wi == nil {
+				return out
+			}
+			_ = os.WriteFile(wi.cfgPath, []byte(newText), 0o600)
+			fired := false
+			verifhook.On("pull.after-authorize", func() {
+				if !fired {
+					fired = true
+					wi.reload()
+				}
+			})
+			ans := runProbe(wi, p)
+			verifhook.On("pull.after-authorize", nil)
+			wi.close()
+			if !fired {
+				out.Labels["reload-not-reached-in-request"] = true
+				continue
+			}
+			out.Labels["reload-inside-pull-request"] = true
+			if !c18SameAnswer(p.name, ans, vOld[i]) && !c18SameAnswer(p.name, ans, vNew[i]) {
+				f := ffail("C18", "request-mixed-configuration", i, "pull request %q, authorized before the reload and resolved after it, answers %s; entirely-old answers %s, entirely-new answers %s\nold:\n%s\nnew:\n%s", p.name, ans, vOld[i], vNew[i], oldText, newText)
+				if strings.HasPrefix(ans, "200") {
+					f.Prop = "C18,C11" // messages handed out to a caller neither configuration allows on that endpoint
 				}
 				out.Failure = f
 				return out
